@@ -182,6 +182,8 @@ def _adjoint_path(res, cfg, facts0, run, shapes, sub, none, tau, interior_fn, ma
                     (interior_fn is not None and len([s for s in sats if s[0] == k]) >= 2):
                 break
     if first is not None and cids and cids[0].size:
+        if smt.has_selection(first):
+            first = P.ZERO          # the canary is about the solver set-up, not about a piecewise residual
         dd = first + Poly.var(int(cids[0].reshape(-1)[0])) * Fraction(1, 10 ** 6) * max(1, int(float(tau) * 10 ** 9))
         cs = smt.Solver(stats=smt.Stats()); cs.keep_sample = False
         v, m = cs.decide(dd, tau)
